@@ -49,6 +49,7 @@ def _class_attrs(prog, cname):
 
 
 def check(prog, run):
+    check_introspection_query_depth(prog, run, "T10")
     m = prog.module(INTRO)
 
     # ---- T1 enums mirror their tables
@@ -449,3 +450,62 @@ def check(prog, run):
         run.report(r, "%s:__Type.ofType:not-one-level(%s)" % (INTRO, bad), where,
                    "the ofType resolver contains %s: it does not return exactly `%s.type`, so nested modifiers of the same kind are "
                    "reported collapsed or skipped" % (bad, pname))
+
+
+def check_introspection_query_depth(prog, run, rule_id):
+    """The canned introspection query unwraps as many wrapper levels as the reference query does."""
+    import re as _re
+    from .. import fold
+    IQ = "py_gql.utilities.introspection_query"
+    r = run.rule(rule_id, "introspection_query() folded for description in (True, False) (its body is string formatting over constants and "
+                          "helpers of its own module, folded like constants): the TypeRef fragment selects `kind` and `name` at each of "
+                          "8 levels joined by 7 nested `ofType` selections - the depth of the reference query, enough for "
+                          "`[[[T!]!]!]!` - and `description` is selected exactly when asked for", 4)
+    f = prog.get_func(IQ, "introspection_query")
+    run.looked_at(f)
+    base = {"str": str, "len": len, "bool": bool, "int": int, "range": range, "list": list, "tuple": tuple, "dict": dict, "min": min,
+            "max": max, "True": True, "False": False, "None": None, "reversed": reversed, "enumerate": enumerate}
+    ns = fold.module_namespace(prog, IQ, base)
+    param = f.params[0] if f.params else None
+    for description in (True, False):
+        try:
+            outs = fold.fold_function(f.node, {param: description} if param else {}, ns)
+        except fold.FoldError as e:
+            raise AnalysisError("C15.%s: introspection_query cannot be folded: %s" % (rule_id, e))
+        if len(outs) != 1 or outs[0][0] != "return" or not isinstance(outs[0][1], str):
+            raise AnalysisError("C15.%s: introspection_query does not fold to one text (%s)" % (rule_id, [(k, type(v).__name__) for k, v in outs]))
+        text = outs[0][1]
+        toks = _re.findall(r"[_A-Za-z]\w*|\.\.\.|[{}()\[\]:!$@=|&]", _re.sub(r"#[^\n]*", "", text))
+        # the selection set of `fragment TypeRef on __Type`
+        levels = None
+        for i in range(len(toks) - 4):
+            if toks[i] == "fragment" and toks[i + 1] == "TypeRef":
+                j = toks.index("{", i)
+                depth, levels, cur = 0, {}, j
+                while cur < len(toks):
+                    t = toks[cur]
+                    if t == "{":
+                        depth += 1
+                    elif t == "}":
+                        depth -= 1
+                        if depth == 0:
+                            break
+                    else:
+                        levels.setdefault(depth, []).append(t)
+                    cur += 1
+                break
+        if levels is None:
+            raise AnalysisError("C15.%s: fragment TypeRef not found in the folded query" % rule_id)
+        n_levels = max(levels)
+        hops = sum(1 for d in levels if "ofType" in levels[d])
+        r.instance("description=%s: TypeRef has %d levels, %d ofType hops" % (description, n_levels, hops))
+        complete = all("kind" in levels.get(d, ()) and "name" in levels.get(d, ()) for d in range(1, n_levels + 1))
+        if hops < 7 or not complete:
+            run.report(r, "%s:introspection_query:type-ref-depth" % IQ, f.where(),
+                       "the TypeRef fragment of the canned introspection query follows %d `ofType` hops%s (the reference query follows 7): "
+                       "a type wrapped deeper than that is reported without its named type" % (hops, "" if complete else " and a level lacks kind/name"))
+        has_desc = "description" in toks
+        r.instance("description=%s: `description` selected: %s" % (description, has_desc))
+        if has_desc != description:
+            run.report(r, "%s:introspection_query:description(%s)" % (IQ, description), f.where(),
+                       "introspection_query(description=%s) %s `description`" % (description, "selects" if has_desc else "does not select"))
